@@ -41,9 +41,14 @@ RULES = {
 CORE_TYPES = ["int", "str", "bool", "Optional[str]", "List[str]", "Literal['a', 'b']"]
 
 
+# optional collections of a scalar (argparse: action='append' without required=True and without choices)
+EXTRA_TYPES = ["Optional[List[str]]", "Optional[List[float]]"]
+
+
 def _space(tier):
     full = A.sigma_param()
     small = A.sigma_int()
+    yield from A.ir_space(A.sigma_param(docs=[d for d in A.DOCS if d[0] in ("plain", "nodoc")], types=EXTRA_TYPES), [], 1, returns_1=A.RETURNS[:1], alt_names=())
     if tier == "quick":
         # description kinds and type shapes are crossed in full for six core types; every other type shape runs with the plain, the long and no description
         full = A.sigma_param(types=CORE_TYPES) + A.sigma_param(docs=[d for d in A.DOCS if d[0] in ("plain", "long", "nodoc")], types=[t for t in A.TYPES if t not in CORE_TYPES])
